@@ -157,6 +157,12 @@ FINDINGS = [
             W(2, "flat", "b 0 0 2 int sum"),
             "recursive halving over curr_count = count/2, count/4, ... (one halving too many, doubled again for the "
             "allgather) loses the remainders: only counts that are multiples of 2*inter_comm_size come out right"),
+    Finding("allreduce/smp_binomial allreduce/smp_binomial_pipeline allreduce/smp_rdb allreduce/smp_rsag allreduce/smp_rsag_lr",
+            "ranks-per-host-not-power-of-two:intra-node-tree-leaves-the-node:deadlock", P("K > 1 and (K & (K - 1)) != 0"),
+            {DEAD, CRASH}, W(6, "cyc2", "b 0 0 1 int sum"),
+            "the intra-node binomial reduce receives from inter_rank*num_core + (intra_rank | mask) whenever that rank exists in "
+            "the communicator (the test `src < (inter_rank + 1) * num_core` is commented out): with 3 ranks per host local rank 2 "
+            "waits for the first rank of the next host"),
     Finding("allreduce/rab1", "np=1:uninitialised-recv_cnt:crash", P("np == 1"), {CRASH, DEAD, WRONG, STRAY, GUARD},
             W(1, "flat", "b 0 0 1 int sum"),
             "with one rank the halving loop is not entered and recv_cnt is used uninitialised in memcpy/allgather"),
@@ -194,6 +200,10 @@ FINDINGS = [
             {CRASH, DEAD, WRONG, STRAY, ERR}, W(2, "flat", "b 0 0 1 int none", "b 1 0 1 int none"),
             "with num_core == 1 to_inter == to_intra: every leader sends the message twice and the last one sends it back to "
             "rank 0; the unmatched messages are received by the next bcast (wrong data, truncation) or hit a finished rank"),
+    Finding("bcast/SMP_binomial bcast/mpich", "ranks-per-host-not-power-of-two:message-to-a-rank-of-the-next-host",
+            P("K > 1 and (K & (K - 1)) != 0"), {CRASH, DEAD, WRONG, STRAY, ERR}, W(6, "cyc2", "b 0 0 1 int none", "b 1 0 1 int none"),
+            "with 3 ranks per host the intra-node binomial tree of bcast__SMP_binomial (used by the mpich selector on SMP "
+            "placements) addresses a rank of the next host: messages nobody receives", crash=False),
     Finding("bcast/arrival_scatter", "count<np:fallback-calls-itself:crash", P("(c < np or lay == 'rev') and np > 1"), {CRASH},
             W(2, "flat", "b 0 0 1 int none"),
             "for count < size the algorithm calls colls::bcast, i.e. itself when it is the selected algorithm: unbounded recursion "
@@ -233,7 +243,7 @@ FINDINGS = [
             P("mode == 'ip' and np > 1 and c > 0"), {SENDMOD, WRONG}, W(2, "flat", "ip 1 0 1 int none"),
             "with MPI_IN_PLACE at a root other than rank 0 the root's send buffer is overwritten"),
     Finding("scatter/mvapich2_two_level_binomial scatter/mvapich2_two_level_direct", "cyclic-placement:blocks-in-host-order:wrong-result",
-            P("1 < N < np and c > 0 and not blocked"), {WRONG, SENDMOD, CRASH}, W(4, "cyc2", "b 0 0 1 int none"),
+            P("1 < N < np and c > 0 and not blocked"), {WRONG, STRAY, SENDMOD, CRASH}, W(4, "cyc2", "b 0 0 1 int none"),
             "the blocks are sent node after node: when the ranks of a node are not consecutive they reach the wrong ranks "
             "(the mvapich2 selector tests is_blocked(), the algorithm itself does not)", crash=False),
     Finding("allgather/mvapich2_smp gather/mvapich2_two_level scatter/mvapich2_two_level_binomial scatter/mvapich2_two_level_direct",
@@ -248,7 +258,7 @@ FINDINGS = [
             "gather-mvapich.cpp sets leader_comm_rank = leader_comm->size() (typo for ->rank()): the branches for a root that "
             "is not a node leader and for hosts with different numbers of ranks never find the leader of the root (SIGSEGV)"),
     Finding("gather/mvapich2_two_level", "cyclic-placement:blocks-in-host-order:wrong-result", P("1 < N < np and c > 0 and not blocked"),
-            {WRONG, CRASH}, W(4, "cyc2", "b 0 0 1 int none"),
+            {WRONG, STRAY, CRASH}, W(4, "cyc2", "b 0 0 1 int none"),
             "the blocks gathered per node are stored node after node: when the ranks of a node are not consecutive the receive "
             "buffer is not in rank order", crash=False),
     # ---------------------------------------------------------------------------------------------------- alltoall -----
@@ -280,6 +290,20 @@ FINDINGS = [
     Finding("allreduce/impi", "np=nonpow2:selects-rab1:abort", P("not pow2 and c > 0"), {CRASH},
             W(6, "blk2", "b 0 0 4099 int sum"), "the Intel table selects allreduce__rab1 whatever the communicator size; rab1 "
             "throws 'can't be used with non power of two number of processes'", via="allreduce/rab1"),
+    Finding("allreduce/ompi", "count=0:np>=16:selects-ompi_ring_segmented:SIGFPE", P("c == 0 and np >= 16"), {CRASH},
+            W(16, "flat", "b 0 0 0 int sum"), "for 16 <= np < 64 and less than 64 bytes (128 for np >= 32) the Open MPI selector uses the "
+            "segmented ring, which divides by zero on an empty message", via="allreduce/ompi_ring_segmented"),
+    Finding("allreduce/default", "count=0:np>=16:derived-datatype:SIGFPE", P("c == 0 and np >= 16 and holes"), {CRASH},
+            W(16, "flat", "b 0 0 0 vec user"), "allreduce__default hands derived datatypes to allreduce__ompi, whose segmented "
+            "ring divides by zero on an empty message: the DEFAULT MPI_Allreduce crashes for count 0, a derived datatype and "
+            "16 or more ranks", via="allreduce/ompi_ring_segmented"),
+    Finding("alltoall/impi", "np=nonpow2:selects-pair:abort", P("not pow2 and c > 0"), {CRASH},
+            W(12, "blk4", "b 0 0 2732 dbl none"), "the Intel table selects alltoall__pair whatever the communicator size; pair "
+            "throws 'can't be used with non power of two number of processes'", via="alltoall/pair"),
+    Finding("reduce/mvapich2", "np>=16:consecutive-reduces-interfere", P("np >= 16"), {CRASH, DEAD, WRONG, ERR, STRAY, NONROOT},
+            W(17, "flat", "b 0 0 4097 vec user", "b 0 0 1 int sum"),
+            "with 16 ranks or more two consecutive MPI_Reduce calls interfere: a message of the second call is received by the "
+            "first one (wrong result, MPI_ERR_TRUNCATE/MPI_ERR_TYPE abort or deadlock); each call alone is right", crash=False),
     Finding("allreduce/impi", "dt=holes:selects-rab1:stray-write", P("holes and c > 0 and np > 1 and pow2"), {STRAY},
             W(8, "blk4", "ip 0 0 4099 vec user"), "the Intel table selects allreduce__rab1, which copies whole extents over the "
             "holes of a derived datatype", via="allreduce/rab1"),
